@@ -498,14 +498,18 @@ def exec_op(handles, fam, op):
     if k == "view":
         idx = op["idx"]
         how = op.get("how", "get_variant")
-        if how == "item":
+        if how == "slice":
+            new = m[slice(*op["sl"])]
+        elif how == "ellipsis":
+            new = m[...]
+        elif how == "item":
             new = m[idx[0]]
         elif how == "iter":
             new = list(m.iter_own_variants())[idx[0]]
         else:
             new = m.get_variant(idx)
         handles.append(new); fam.append(fam[op["h"]])
-        return f"view {op['h']} " + ",".join(str(i) for i in idx)
+        return view_text(op)
     if k == "desc":
         m.set_description(op["s"])
         return f"desc {op['h']} {op['s']}"
@@ -521,13 +525,26 @@ def exec_op(handles, fam, op):
     raise ValueError("bad op " + k)
 
 
+def view_text(op) -> str:
+    if op.get("how") == "slice":
+        return f"views {op['h']} " + ":".join("n" if x is None else str(x) for x in op["sl"])
+    if op.get("how") == "ellipsis":
+        return f"views {op['h']} all"
+    return f"view {op['h']} " + ",".join(str(i) for i in op["idx"])
+
+
 def op_text_on_error(op) -> str:
     k = op["op"]
     if k == "alter":
         return f"alter {op['h']} {op['n']}"
     if k == "view":
-        return f"view {op['h']} " + ",".join(str(i) for i in op["idx"])
+        return view_text(op)
     return None
+
+
+def logly_changed(m, spec) -> bool:
+    st = m.get_log_status()
+    return any(bool(v) != (spec["log"] and k == "lv") for k, v in st.items())
 
 
 def gen_op(rng, spec, handles, nonlinear: bool):
@@ -541,6 +558,10 @@ def gen_op(rng, spec, handles, nonlinear: bool):
                          ("logly", 0.9 if (spec["log"] and spec["linear"]) else 0), ("rtol", 0.3), ("bad", 0.4)])
     if kind == "steady" and has_dups(m):
         kind = "solve"
+    if kind in ("steady", "solve") and logly_changed(m, spec):
+        # after change_logly the numerical routines may be fed log(<=0): LAPACK's lstsq then never returns (observed: linear flat
+        # steady, > 40 s in one call).  The invariant mutator itself, copies, assigns and reads are still exercised on such handles.
+        kind = "assign"
     if kind == "assign":
         n = spec["n"]
         cls = rng.weighted([("r", 4), ("c", 3), ("a", 1), ("std", 1), ("var", 2), ("shock", 0.7), ("unknown", 0.4)])
@@ -595,6 +616,18 @@ def gen_op(rng, spec, handles, nonlinear: bool):
         return {"op": "copy", "h": h}
     if kind == "pickle":
         return {"op": "pickle", "h": h, "via": rng.weighted([("pickle", 4), ("deepcopy", 2), ("dill", 1.5), ("saveload", 0.7), ("bytes", 0.7)])}
+    if kind == "view" and rng.chance(0.35):
+        # m[a:b:c] with any mix of None / negative / positive bounds and steps, and m[...]: the expected variants are
+        # list(range(nv))[selector] (Python's own slicing: independent of irispie and of the Lean model)
+        if rng.chance(0.15):
+            return {"op": "view", "h": h, "idx": list(range(nv)), "how": "ellipsis"}
+        for _ in range(6):
+            b = lambda: rng.choice([None, None, 0, 1, 2, -1, -2, -3, nv, nv + 2, -nv, -nv - 2, rng.randint(-nv - 1, nv + 1)])
+            sl = [b(), b(), rng.choice([None, None, 1, 1, 2, -1, -2, 3])]
+            exp = list(range(nv))[slice(*sl)]
+            if exp:
+                return {"op": "view", "h": h, "idx": exp, "how": "slice", "sl": sl}
+        return {"op": "view", "h": h, "idx": [nv - 1], "how": "slice", "sl": [-1, None, None]}
     if kind == "view":
         how = rng.weighted([("item", 4), ("get_variant", 3), ("iter", 1)])
         if how == "iter":
@@ -622,7 +655,9 @@ def gen_op(rng, spec, handles, nonlinear: bool):
         return {"op": "alter", "h": h, "n": 0}
     # an index just outside -nv .. nv-1 (off-by-one loop bound, an index kept after shrinking), alone or inside a list
     out = rng.choice([nv, nv + 1, -nv - 1, -nv - 2, 2 * nv, nv + rng.randint(0, 2)])
-    form = rng.weighted([("item", 3), ("single", 2), ("list", 2)])
+    form = rng.weighted([("item", 3), ("single", 2), ("list", 2), ("step0", 1)])
+    if form == "step0":
+        return {"op": "view", "h": h, "idx": [nv], "how": "slice", "sl": [None, None, 0]}
     if form == "item":
         return {"op": "view", "h": h, "idx": [out], "how": "item"}
     if form == "single":
@@ -785,7 +820,10 @@ def run_case(ctx: Ctx, case: dict, gen_rng=None, n_ops: int = 0, oracles: bool =
                 ctx.fail("variant-view-wrong-variant", snap, f"op #{i - 1} {op}: an in-range index on a model with {N} variant(s) was rejected")
             elif not outside:
                 got = pub(handles[-1])
-                for j, k in enumerate(op["idx"]):
+                if got["nv"] != len(op["idx"]):
+                    ctx.fail("variant-view-wrong-variant", snap,
+                             f"op #{i - 1} {op}: the selector names {len(op['idx'])} variant(s) of {N} but the view has {got['nv']}")
+                for j, k in enumerate(op["idx"][:got["nv"]]):
                     r = k % N
                     for key in ("levels", "changes", "params"):
                         for (n1, v1), (n2, v2) in zip(got[key], src[key]):
@@ -968,7 +1006,7 @@ def close_enough(a: bytes, b: bytes) -> bool:
 
 def final_oracles(ctx: Ctx, case, handles, fam):
     spec = case["spec"]
-    cands = [m for m in handles if not has_dups(m)]
+    cands = [m for m in handles if not has_dups(m) and not logly_changed(m, spec)]
     if not cands:
         return
     # the choices below depend on the case only, so that a replay makes the same ones
